@@ -29,6 +29,7 @@ def run_eval(cases, chunk=40, workers=8, timeout=1500, parallel=2):
     recs = {}
     lr1 = {}
     reduced = {}
+    types = {}
     tot = [0, 0]
     chunks = [cases[i:i + chunk] for i in range(0, len(cases), chunk)]
 
@@ -51,11 +52,14 @@ def run_eval(cases, chunk=40, workers=8, timeout=1500, parallel=2):
             for tag, obj in r.prints:
                 if tag == "REPLAY":
                     recs.setdefault(obj["id"], []).append(obj)
+                elif tag == "TYPES":
+                    types[obj["id"]] = obj["types"]
                 elif tag == "LR1":
                     lr1[obj["id"]] = bool(obj["lr1"])
                     reduced[obj["id"]] = bool(obj["reduced"])
     run_eval.lr1 = lr1
     run_eval.reduced = reduced
+    run_eval.types = types
     return recs, tot[0], tot[1]
 
 
@@ -383,6 +387,91 @@ def compare(rec, oc, algo, backend, suffixed):
             out.append(("C17", "read_after_stream_error", "pulled %d expected %d" % (oc["pulled"], res["at"])))
         return out
     raise ToolError("unknown record kind %r" % kind)
+
+
+def parse_rust_type(s):
+    """a type as LALRPOP prints it -> the term notation of Types.tla (None if outside the fragment)"""
+    s = s.strip()
+    pos = [0]
+
+    def ws():
+        while pos[0] < len(s) and s[pos[0]] == " ":
+            pos[0] += 1
+
+    def ty():
+        ws()
+        if s.startswith("(", pos[0]):
+            pos[0] += 1
+            items = []
+            ws()
+            while not s.startswith(")", pos[0]):
+                items.append(ty())
+                ws()
+                if s.startswith(",", pos[0]):
+                    pos[0] += 1
+                ws()
+            pos[0] += 1
+            return ["unit"] if not items else ["tuple"] + items
+        j = pos[0]
+        while pos[0] < len(s) and (s[pos[0]].isalnum() or s[pos[0]] in "_:"):
+            pos[0] += 1
+        path = s[j:pos[0]].lstrip(":")
+        args = []
+        ws()
+        if s.startswith("<", pos[0]):
+            pos[0] += 1
+            while True:
+                args.append(ty())
+                ws()
+                if s.startswith(",", pos[0]):
+                    pos[0] += 1
+                    continue
+                break
+            ws()
+            if not s.startswith(">", pos[0]):
+                raise ValueError(s)
+            pos[0] += 1
+        last = path.split("::")[-1]
+        if last == "Vec" and len(args) == 1:
+            return ["vec", args[0]]
+        if last == "Option" and len(args) == 1:
+            return ["opt", args[0]]
+        if last == "ErrorRecovery":
+            return ["recovery"]
+        if last in ("V", "usize") and not args:
+            return [last]
+        raise ValueError(s)
+
+    try:
+        t = ty()
+        ws()
+        return t if pos[0] == len(s) else None
+    except (ValueError, IndexError):
+        return None
+
+
+def norm_nt_name(n):
+    return n.replace('"', "").replace(" ", "")
+
+
+def compare_types(spec_types, export):
+    """-> list of (nonterminal, spec type, LALRPOP's type string) that differ"""
+    theirs = {norm_nt_name(n): t for n, t in zip(export["nonterminals"], export["types"])}
+    out = []
+    for e in spec_types:
+        n = norm_nt_name(e["nt"])
+        if n not in theirs or theirs[n] is None:
+            continue          # (the expansion of inlined sugar may not keep every nonterminal)
+        got = parse_rust_type(theirs[n])
+        if got is None:
+            continue
+        if got != _jsonable(e["ty"]):
+            out.append((e["nt"], e["ty"], theirs[n]))
+    return out
+
+
+def _jsonable(t):
+    return [(_jsonable(x) if isinstance(x, list) else x) for x in t]
 
 
 def norm_expected(x):
